@@ -282,6 +282,65 @@ class G:
             fol = new
         return fol
 
+
+    # ---- FIRST / LAST symbol sets (terminals as written, non-silent rule names; silent rules are looked through)
+    def _sym_sets(self, e, which, depth=0):
+        """(symbols, nullable) of expression e; `which` is 'first' or 'last'"""
+        if depth > 40:
+            return set(), False
+        k = e["k"]
+        if k == "str":
+            return ({'"%s"' % e["v"]}, e["v"] == "")
+        if k == "insens":
+            return ({'^"%s"' % e["v"]}, e["v"] == "")
+        if k == "range":
+            return ({"'%s'..'%s'" % (e["a"], e["b"])}, False)
+        if k == "ident":
+            n = e["v"]
+            if n in self.rules and self.rules[n]["ty"] == "Silent" and n not in ("S", "WHITESPACE", "COMMENT"):
+                return self._sym_sets(self.rules[n]["expr"], which, depth + 1)
+            if n in ("SOI", "EOI"):
+                return (set(), True)
+            if n in self.rules:
+                # a non-silent rule is one symbol; it is nullable when its expression is
+                return ({n}, self._sym_sets(self.rules[n]["expr"], which, depth + 1)[1])
+            return ({n}, False)
+        if k == "seq":
+            els = e["e"] if which == "first" else list(reversed(e["e"]))
+            out = set()
+            for x in els:
+                if self._is_S(x):
+                    return out, False          # an explicit S is a barrier: nothing beyond it is adjacent without S
+                s, nul = self._sym_sets(x, which, depth + 1)
+                out |= s
+                if not nul:
+                    return out, False
+            return out, True
+        if k == "choice":
+            out, nul = set(), False
+            for x in e["e"]:
+                s, n2 = self._sym_sets(x, which, depth + 1)
+                out |= s
+                nul = nul or n2
+            return out, nul
+        if k in ("opt", "rep"):
+            return (self._sym_sets(e["e"], which, depth + 1)[0], True)
+        if k in ("rep1",):
+            return self._sym_sets(e["e"], which, depth + 1)
+        if k == "repn":
+            s, nul = self._sym_sets(e["e"], which, depth + 1)
+            return (s, nul or e.get("min", 0) == 0)
+        if k in ("neg", "pos"):
+            return (set(), True)
+        return (set(), False)
+
+    def juncture_pairs(self, els, i):
+        """symbol pairs (x, y) that can be adjacent across the juncture between els[i] and els[i+1], looking through nullable
+        neighbours up to an explicit S"""
+        left, _ = self._sym_sets({"k": "seq", "e": els[:i + 1]}, "last")
+        right, _ = self._sym_sets({"k": "seq", "e": els[i + 1:]}, "first")
+        return sorted((a, b) for a in left for b in right)
+
     def junctures(self):
         """All places in rules that can run non-atomically where pest's implicit WHITESPACE/COMMENT skip can
         consume input although no explicit S sits on either side (looking through optional parts and, at the
@@ -305,14 +364,17 @@ class G:
                         if in_look and all(self.zero_width(x) for x in els[i + 1:]):
                             continue
                         if not (self._left_S(els, i, ctxS) or self._right_S(els, i + 1, folS)):
-                            out.append((name, "%s ~ %s" % (self.show(a), self.show(b)), self.show(a), self.show(b)))
+                            pairs = self.juncture_pairs(els, i)
+                            out.append((name, "%s ~ %s" % (self.show(a), self.show(b)), self.show(a), self.show(b), pairs))
                     for i, x in enumerate(els):
                         rec(x, self._left_S(els, i - 1, ctxS), self._right_S(els, i + 1, folS), in_look)
                     return
                 if k in ("rep", "rep1", "repn"):
                     inner = e["e"]
                     if not (self.starts_with_S(inner) or self.ends_with_S(inner)):
-                        out.append((name, "%s{iter}" % self.show(inner), self.show(inner), self.show(inner)))
+                        l_, _ = self._sym_sets(inner, "last")
+                        f_, _ = self._sym_sets(inner, "first")
+                        out.append((name, "%s{iter}" % self.show(inner), self.show(inner), self.show(inner), sorted((a, b) for a in l_ for b in f_)))
                     rec(inner, ctxS and self.ends_with_S(inner), folS and self.starts_with_S(inner), in_look)
                     return
                 if k in ("pos", "neg"):
